@@ -1,6 +1,6 @@
 (* Properties_C12.v — C12: gadget decomposition yields balanced digits that recompose to the input. *)
 From Coq Require Import ZArith List Lia.
-From TV Require Import Base.Int32 Model.Decomp Proofs.Digits Proofs.Decomp.
+From TV Require Import Base.Int32 Base.Sums Model.Decomp Proofs.Digits Proofs.Decomp.
 Import ListNotations.
 Local Open Scope Z_scope.
 
